@@ -265,6 +265,52 @@ Proof.
   - apply loop_overrides.
 Qed.
 
+(** * shard inference does not influence the role *)
+Lemma loop_sh_role cfg act auto sho ss : forall i pin visited st sh,
+  fst (infer_sh_loop cfg act auto sho i pin visited st sh ss) = infer_loop cfg act i pin visited st ss.
+Proof.
+  induction ss as [|s r IH]; intros i pin visited st sh; simpl; [reflexivity|].
+  destruct s as [|q|].
+  - reflexivity.
+  - destruct pin; [apply IH|].
+    destruct (a_hot act i); [apply IH|].
+    destruct (is_write_query q); [apply IH|].
+    destruct visited; apply IH.
+  - apply IH.
+Qed.
+
+Lemma infer_sh_role cfg act auto sho st shard ss :
+  fst (fst (infer_sh cfg act auto sho st shard ss)) = fst (infer_act cfg act st ss).
+Proof.
+  unfold infer_sh, infer_act. destruct (negb (s_splitting cfg)); [reflexivity|].
+  destruct ss as [|s r]; [reflexivity|]. cbn [fst]. apply loop_sh_role.
+Qed.
+
+(** without automatic_sharding_key the shard is untouched and the only error is "empty query" *)
+Lemma shard_step_off r s : shard_step false r s = s.
+Proof. reflexivity. Qed.
+
+Lemma loop_sh_off cfg act sho ss : forall i pin visited st sh,
+  snd (infer_sh_loop cfg act false sho i pin visited st sh ss) = sh.
+Proof.
+  induction ss as [|s r IH]; intros i pin visited st sh; simpl; [reflexivity|].
+  destruct s as [|q|].
+  - reflexivity.
+  - destruct pin; [apply IH|].
+    destruct (a_hot act i); [apply IH|].
+    destruct (is_write_query q); [apply IH|].
+    destruct visited; apply IH.
+  - apply IH.
+Qed.
+
+Lemma infer_sh_off cfg act sho st shard ss :
+  infer_sh cfg act false sho st shard ss = (fst (infer_act cfg act st ss), shard, snd (infer_act cfg act st ss)).
+Proof.
+  unfold infer_sh, infer_act. destruct (negb (s_splitting cfg)); [reflexivity|].
+  destruct ss as [|s r]; [reflexivity|]. cbn [fst snd].
+  rewrite loop_sh_off. cbn [sh_active sh_err]. rewrite loop_sh_role. reflexivity.
+Qed.
+
 (** * client.rs gating *)
 
 Lemma route_parsed_off cfg st p : parser_on cfg st = false -> route_parsed cfg st p = st.
